@@ -233,6 +233,8 @@ def _family(query):
         return "dst-" + w[1]
     if w[0] == "builder":
         return "builder-" + w[1]
+    if w[0] == "pair" and len(w) > 1:
+        return "pair-" + w[1]
     return w[0]
 
 
@@ -246,6 +248,8 @@ def _failing_input_desc(query):
         if w[0] == "builder":
             return (f"{w[1]} builder ({w[2]}) header (size {w[3]}, align {w[4]}{', destructor' if w[8] == '1' else ''}) "
                     f"element (size {w[5]}, align {w[6]}{', destructor' if w[9] == '1' else ''}) n={w[7]} action {' '.join(w[10:])}")
+        if w[0] == "pair":
+            return f"release history `{w[1]}` of " + _failing_input_desc(" ".join(w[2:]))
         if w[0] == "tag":
             return f"header word for colour {w[2]} needs_trace {w[3]} live {w[4]}"
     except IndexError:
@@ -292,7 +296,7 @@ def analyse(prop, tier, seed, config, cases, crashes, global_mon, model_ans, tim
             g = groups.setdefault(sig, dict(kind="diff", cases=[]))
             g["cases"].append((c, m))
     # monitor groups first, then disagreements; biggest first inside each class
-    ordered = sorted(groups.items(), key=lambda kv: (kv[1]["kind"] != "monitor", -len(kv[1]["cases"])))
+    ordered = sorted(groups.items(), key=lambda kv: (kv[1]["kind"] != "monitor", "process died" in kv[0], -len(kv[1]["cases"])))
     for k, (sig, g) in enumerate(ordered[:MAX_PROBLEMS]):
         cs, seen_q = [], set()
         for cm in sorted(g["cases"], key=lambda cm: (len(cm[0].query), cm[0].query)):
